@@ -311,6 +311,91 @@ impl ShortMessageFactory for StructWrap {
     }
 }
 
+/// ONE cell of the observation vector, computed without touching any other method first.
+pub fn obs_one<M: ShortMessage>(m: &M, j: usize) -> i64 {
+    let r = guarded(|| match j {
+        0 => u8::from(m.r#type()) as i64,
+        1 => super_code(m.super_type()),
+        2 => main_code(m.main_category()),
+        3 => opt(m.channel().map(|x| x.get())),
+        4 => opt(m.key_number().map(|x| x.get())),
+        5 => opt(m.velocity().map(|x| x.get())),
+        6 => opt(m.controller_number().map(|x| x.get())),
+        7 => opt(m.control_value().map(|x| x.get())),
+        8 => opt(m.program_number().map(|x| x.get())),
+        9 => opt(m.pressure_amount().map(|x| x.get())),
+        10 => opt(m.pitch_bend_value().map(|x| x.get())),
+        11 => m.is_note() as i64,
+        12 => m.is_note_on() as i64,
+        13 => m.is_note_off() as i64,
+        14 => m.status_byte() as i64,
+        15 => m.data_byte_1().get() as i64,
+        16 => m.data_byte_2().get() as i64,
+        17 => m.to_bytes().0 as i64,
+        18 => m.to_bytes().1.get() as i64,
+        19 => m.to_bytes().2.get() as i64,
+        20 => fuzzy_code(m.r#type().super_type()),
+        21 => main_code(m.r#type().super_type().main_category()),
+        _ => structured_code(&m.to_structured())[j - 22],
+    });
+    r.0.unwrap_or(PANIC)
+}
+
+/// `firstcall <impl> <j> <s> <d1> <d2>`: a fresh process whose FIRST query to the crate is accessor j
+/// (lazily initialised tables, once-cells and the like are cold); prints the row.
+pub fn first_call(args: &[String]) {
+    crate::alloc::silence_panics();
+    let n: Vec<i64> = args.iter().map(|x| x.parse().unwrap()).collect();
+    let (imp, j, s, d1, d2) = (n[0], n[1] as usize, n[2] as u8, n[3] as u8, n[4] as u8);
+    let mut acc = Acc { allocs: 0 };
+    let (first, vec) = match imp {
+        2 => {
+            let m = Foreign(s, d1, d2);
+            (obs_one(&m, j), obs(&mut acc, &m))
+        }
+        1 => {
+            let m = StructuredShortMessage::from_bytes((s, U7::new(d1), U7::new(d2))).unwrap();
+            (obs_one(&m, j), obs(&mut acc, &m))
+        }
+        _ => {
+            let m = RawShortMessage::from_bytes((s, U7::new(d1), U7::new(d2))).unwrap();
+            (obs_one(&m, j), obs(&mut acc, &m))
+        }
+    };
+    let mut row = vec![imp, j as i64, s as i64, d1 as i64, d2 as i64, first];
+    row.extend_from_slice(&vec);
+    println!("{}", row.iter().map(|x| x.to_string()).collect::<Vec<_>>().join(","));
+}
+
+/// Table `first`: every accessor as the first query of a fresh process, for the three kinds of implementor.
+pub fn table_first(dir: &str, _tier: &str, _seed: u64, per: usize) -> (usize, u64) {
+    let mut w = ChunkWriter::new(dir, per);
+    let exe = std::env::current_exe().expect("own path");
+    let msgs: [(u8, u8, u8); 10] = [(0x93, 60, 100), (0x83, 60, 0), (0xb0, 7, 64), (0xb0, 123, 0), (0xc5, 9, 0), (0xe1, 1, 2),
+                                    (0xf0, 0, 0), (0xf1, 0x35, 0), (0xf8, 0, 0), (0xff, 0, 0)];
+    for (s, d1, d2) in msgs {
+        for imp in 0..3 {
+            for j in 0..OBS_LEN {
+                let out = std::process::Command::new(&exe)
+                    .args(["firstcall", &imp.to_string(), &j.to_string(), &s.to_string(), &d1.to_string(), &d2.to_string()])
+                    .output()
+                    .expect("spawn");
+                let text = String::from_utf8_lossy(&out.stdout);
+                let row: Vec<i64> = text.trim().split(',').filter_map(|x| x.parse().ok()).collect();
+                if row.len() == 6 + OBS_LEN {
+                    w.push(&row);
+                } else {
+                    // the child died: recorded as a panic of that accessor
+                    let mut r = vec![imp, j as i64, s as i64, d1 as i64, d2 as i64, PANIC];
+                    r.extend_from_slice(&[PANIC; OBS_LEN]);
+                    w.push(&r);
+                }
+            }
+        }
+    }
+    w.finish()
+}
+
 fn bytes3<M: ShortMessage>(m: &M) -> [i64; 3] {
     [m.status_byte() as i64, m.data_byte_1().get() as i64, m.data_byte_2().get() as i64]
 }
@@ -700,6 +785,7 @@ pub fn run(args: &[String]) {
             "short" => table_short(dir, tier, seed, per),
             "structured" => table_structured(dir, tier, seed, per),
             "types" => table_types(dir, tier, seed, per),
+            "first" => table_first(dir, tier, seed, per),
             other => crate::pure2::table(other, dir, tier, seed, per),
         }
     };
